@@ -106,7 +106,7 @@ func VHPubMany() {
 	vCover("pub many done")
 }
 
-// VHPubParked: NPUB (1100, thorough 4000) asynchronous publishes to one subscriber that is not
+// VHPubParked: NPUB (1100, thorough 2000) asynchronous publishes to one subscriber that is not
 // receiving yet, so that more than a thousand hand-offs are parked at once (goroutine budgets,
 // semaphores, pooled senders); a second subscriber with a large buffer takes its copies at once.
 // Pub / PubSlice must return without waiting; then the slow subscriber receives everything:
